@@ -224,13 +224,14 @@ class odict(dict):
             self._keys.remove(key)
         return value
 
-    def popitem(self):
+    def popitem(self, last=True):
         """
         Remove and return last item (key, value) duple
+        If last is False remove and return first item instead
         If odict is empty raise KeyError
         """
         try:
-            key = self._keys[-1]
+            key = self._keys[-1 if last else 0]
         except IndexError:
             raise KeyError('Empty odict.')
         value = dict.__getitem__(self, key)
